@@ -135,9 +135,16 @@ def obs_c05_valnone(case):
     g = bytes.fromhex(case["g"])
     mf, outf = parse_call(f, case.get("mode", 0), case.get("pbf", 1), 0)
     mg, outg = parse_call(g, case.get("mode", 0), case.get("pbf", 1), 0)
+    # "the same attributes": the public ones by digest; all of them (the private ones too) through what the message serialises to
+    sersame = -1
+    if mf is not None and mg is not None:
+        try:
+            sersame = 1 if mg.serialize() == mf.serialize() else 0
+        except Exception:  # noqa: BLE001
+            sersame = 0
     return {"prop": "C05", "kind": "valnone", "f": list(f), "g": list(g), "outf": outf, "outg": outg,
             "attrsf": attrs_digest(mf) if mf is not None else [],
-            "attrsg": attrs_digest(mg) if mg is not None else []}
+            "attrsg": attrs_digest(mg) if mg is not None else [], "sersame": sersame}
 
 
 _HANGS = 0
